@@ -2,44 +2,48 @@
    independent of the schedule.  Statements about the array-program model of
    Model/Heap.v; ONLY statements, each closed by [exact]. *)
 From Coq Require Import List ZArith Bool Arith.
-From MM Require Import Model.Heap Proofs.Heap.
+From Coq Require Import QArith.
+From MM Require Import Base.Num Model.Heap Proofs.Heap Proofs.HeapRefine Model.HeapRoutines Proofs.HeapRoutines.
+From MM Require Model.Sample Model.Quantile Model.Utest Model.QuantileCI Model.Fit Model.Graph Model.Kde
+  Model.Stream Model.Marks Model.Order Model.Scale Model.Ticks.
+Local Open Scope nat_scope.
 Import ListNotations.
 
 (* FRAME: a routine whose in-place updates all target arrays it allocated itself leaves
    every array that existed before the call exactly as it was — for every store, every
    binding of its arguments (aliased or not) and every content. *)
-Theorem C20_readonly_frame : forall p e s, env_ok e s -> readonly p = true ->
+Theorem C20_readonly_frame : forall (A : Type) (p : list (cmd A)) e s, env_ok e s -> readonly p = true ->
   forall l, l < length s -> nth l (snd (exec p (e, s))) [] = nth l s [].
-Proof. exact readonly_frame. Qed.
+Proof. exact @readonly_frame. Qed.
 Print Assumptions C20_readonly_frame.
 
 (* FOOTPRINT: a documented in-place operation changes nothing but the arrays of the
    arguments the static analysis lists. *)
-Theorem C20_inplace_footprint : forall p e s, env_ok e s ->
+Theorem C20_inplace_footprint : forall (A : Type) (p : list (cmd A)) e s, env_ok e s ->
   forall l, l < length s -> (forall v, In v (written_args p []) -> lookup e v <> Some l) ->
   nth l (snd (exec p (e, s))) [] = nth l s [].
-Proof. exact inplace_footprint. Qed.
+Proof. exact @inplace_footprint. Qed.
 Print Assumptions C20_inplace_footprint.
 
 (* DETERMINISM, whatever calls were made before: two calls of a read-only routine on
    argument arrays with equal contents return equal results, however different the rest
    of the two stores is (there is no other state a routine can read or write). *)
-Theorem C20_deterministic : forall p e1 s1 e2 s2, env_ok e1 s1 -> env_ok e2 s2 ->
+Theorem C20_deterministic : forall (A : Type) (p : list (cmd A)) e1 s1 e2 s2, env_ok e1 s1 -> env_ok e2 s2 ->
   readonly p = true -> view_eq e1 s1 e2 s2 -> (forall v, lookup e1 v = None <-> lookup e2 v = None) ->
   forall v, read (snd (exec p (e1, s1))) (fst (exec p (e1, s1))) v
           = read (snd (exec p (e2, s2))) (fst (exec p (e2, s2))) v.
-Proof. exact readonly_deterministic. Qed.
+Proof. exact @readonly_deterministic. Qed.
 Print Assumptions C20_deterministic.
 
 (* SCHEDULES: any number of threads run read-only routines on arguments in a shared store,
    their commands interleaved by an ARBITRARY schedule over one global store; every thread
    that has finished sees exactly the values its sequential run would have produced. *)
-Theorem C20_schedule_independent : forall s0 calls sched,
+Theorem C20_schedule_independent : forall (A : Type) (s0 : store A) calls sched,
   (forall c, In c calls -> env_ok (fst c) s0 /\ readonly (snd c) = true) ->
   let '(s, ths) := grun sched (s0, init_threads calls) in
   forall i th c, nth_error ths i = Some th -> nth_error calls i = Some c -> t_rest th = [] ->
     forall v, read s (t_env th) v = read (snd (exec (snd c) (fst c, s0))) (fst (exec (snd c) (fst c, s0))) v.
-Proof. exact schedule_independent. Qed.
+Proof. exact @schedule_independent. Qed.
 Print Assumptions C20_schedule_independent.
 
 (* The effect analysis applied to the library's routines: which arguments each may modify. *)
@@ -47,13 +51,188 @@ Theorem C20_routine_footprints :
   map (fun r => (r_id r, footprint r)) routines =
   [(1%Z, []); (2%Z, []); (3%Z, []); (4%Z, []); (5%Z, []); (6%Z, []); (7%Z, []); (8%Z, []); (9%Z, []); (10%Z, []);
    (11%Z, []); (12%Z, []);
-   (20%Z, [0; 1]); (21%Z, [0]); (22%Z, [0]); (23%Z, [0]); (24%Z, [0]); (25%Z, [2])].
+   (20%Z, [0; 1]); (21%Z, [0]); (22%Z, [0]); (23%Z, [0]); (24%Z, [0]); (25%Z, [2]); (30%Z, [])].
 Proof. exact routines_effects. Qed.
 Print Assumptions C20_routine_footprints.
 
+(* ====================================================================================== *)
+(* REFINEMENT: array programs vs the numeric models of the other properties.               *)
+(* ====================================================================================== *)
+(* The generic theorem, once: for every array program p (any element type), every store and
+   every binding of the arguments in which the arguments p writes in place are not aliased
+   with other variables, what the run through the store leaves visible through each variable
+   is exactly what the store-free value semantics [pexec] computes from the contents the
+   arguments had at the call. *)
+Theorem C20_exec_refines : forall (A : Type) (p : list (cmd A)) (args : list var) e (s : store A),
+  env_ok e s ->
+  (forall v, In v args -> lookup e v <> None) ->
+  targets_bound p args = true ->
+  (forall v, In v (written_args p []) -> unaliased e v) ->
+  forall v, read (snd (exec p (e, s))) (fst (exec p (e, s))) v = pexec p (read s e) v.
+Proof. exact @exec_refines. Qed.
+Print Assumptions C20_exec_refines.
+
+(* ... and for a routine = program + result function: RESULT = value semantics of the argument
+   contents; FRAME: pre-existing arrays other than those of the written arguments unchanged;
+   FOOTPRINT VALUE: each argument's array afterwards holds exactly its value-semantics value. *)
+Theorem C20_routine_refines : forall (A R : Type) (r : vroutine A R) e (s : store A),
+  env_ok e s ->
+  (forall v, In v (v_args r) -> lookup e v <> None) ->
+  v_static_ok r = true ->
+  (forall v, In v (written_args (v_prog r) []) -> unaliased e v) ->
+  fst (v_run r e s) = v_pure r (read s e) /\
+  (forall l, l < length s -> (forall v, In v (written_args (v_prog r) []) -> lookup e v <> Some l) ->
+     nth l (snd (v_run r e s)) [] = nth l s []) /\
+  (forall v l, In v (v_args r) -> lookup e v = Some l ->
+     nth l (snd (v_run r e s)) [] = pexec (v_prog r) (read s e) v).
+Proof. exact @routine_refines. Qed.
+Print Assumptions C20_routine_refines.
+
+(* ---- the instantiated routines (Model/HeapRoutines.v).  [refines_readonly r pre m]: for every
+   store and argument binding satisfying pre, the result is m(argument contents at the call)
+   and EVERY pre-existing array is unchanged.  [refines_inplace r pre m W]: result m, every
+   pre-existing array other than the W-arguments' unchanged, and each W-argument's array holds
+   exactly the listed new contents (premise: the W-arguments are unaliased). ---- *)
+
+(* stats.MannWhitneyUTest (defensive copies utest.go:134-137) = Model.Utest.mw_test (C01/C03) *)
+Theorem C20_refines_MannWhitneyUTest : forall (A : Type) (cmp : A -> A -> comparison) cdf EL TL alt,
+  refines_readonly (mw_h cmp cdf EL TL alt) no_pre
+    (fun rho => Utest.mw_test cmp cdf EL TL (rho 0) (rho 1) alt).
+Proof. exact @refines_mw_h. Qed.
+Print Assumptions C20_refines_MannWhitneyUTest.
+
+(* Sample.Quantile (Copy().Sort() sample.go:280-283) = Model.Quantile.quantile (C10);
+   w = weighted, sorted = the Sorted flag; weighted samples have one weight per value *)
+Theorem C20_refines_Quantile : forall w sorted q,
+  refines_readonly (quantile_h w sorted q) (wlen w)
+    (fun rho => Quantile.quantile (Sample.mkSample (rho 0) (wopt w (rho 1)) sorted) q).
+Proof. exact refines_quantile_h. Qed.
+Print Assumptions C20_refines_Quantile.
+
+(* Sample.IQR (sample.go:318-320) = Model.Quantile.iqr *)
+Theorem C20_refines_IQR : forall w sorted,
+  refines_readonly (iqr_h w sorted) (wlen w)
+    (fun rho => Quantile.iqr (Sample.mkSample (rho 0) (wopt w (rho 1)) sorted)).
+Proof. exact refines_iqr_h. Qed.
+Print Assumptions C20_refines_IQR.
+
+(* QuantileCIResult.SampleCI (quantileci.go:54-56) = Model.QuantileCI.sample_ci (C11) *)
+Theorem C20_refines_SampleCI : forall N lo hi sorted,
+  refines_readonly (sample_ci_h N lo hi sorted) no_pre
+    (fun rho => QuantileCI.sample_ci N lo hi false sorted (rho 0)).
+Proof. exact refines_sample_ci_h. Qed.
+Print Assumptions C20_refines_SampleCI.
+
+(* fit.LOESS (loess.go:51-56) = Model.Fit.loess (C15) *)
+Theorem C20_refines_LOESS : forall degree span x,
+  refines_readonly (loess_h degree span x) (fun rho => length (rho 0) = length (rho 1))
+    (fun rho => Fit.loess (rho 0) (rho 1) degree span x).
+Proof. exact refines_loess_h. Qed.
+Print Assumptions C20_refines_LOESS.
+
+(* graph.Equal (scratch buffer eq.go:33-38) = Model.Graph.g_equal (C18), graphs of any size *)
+Theorem C20_refines_GraphEqual : forall n1 n2,
+  refines_readonly (equal_h n1 n2) no_pre
+    (fun rho => Graph.g_equal (map rho (map v1 (seq 0 n1))) (map rho (map v2 (seq 0 n2)))).
+Proof. exact refines_equal_h. Qed.
+Print Assumptions C20_refines_GraphEqual.
+
+(* vec.Map / Vectorize, vec.Concat, vec.Sum (fresh outputs vec.go:12-76) = Model.Sample.vmap/vconcat/vsum (C09) *)
+Theorem C20_refines_vecMap : forall f, refines_readonly (vmap_h f) no_pre (fun rho => Sample.vmap f (rho 0)).
+Proof. exact refines_vmap_h. Qed.
+Print Assumptions C20_refines_vecMap.
+Theorem C20_refines_vecConcat : forall k, refines_readonly (vconcat_h k) no_pre (fun rho => Sample.vconcat (map rho (seq 0 k))).
+Proof. exact refines_vconcat_h. Qed.
+Print Assumptions C20_refines_vecConcat.
+Theorem C20_refines_vecSum : refines_readonly vsum_h no_pre (fun rho => Sample.vsum (rho 0)).
+Proof. exact refines_vsum_h. Qed.
+Print Assumptions C20_refines_vecSum.
+
+(* KDE.PDF (kde.go:141-145, 173-179): result = Model.Kde.kde_pdf (C12) at the bandwidth
+   Model.Kde.bandwidth_after; the ONLY array written is the Bandwidth cell, with that value *)
+Theorem C20_refines_KDE_PDF : forall scott w kern b x,
+  refines_inplace (kde_pdf_h scott w kern b x) no_pre
+    (fun rho => Kde.kde_pdf (Kde.mkKde (rho 0) (wopt w (rho 1)) kern
+                               (Kde.bandwidth_after (cell 0%Q (rho 2)) (scott (rho 0) (wopt w (rho 1)))) b) x)
+    [(2, fun rho => [Kde.bandwidth_after (cell 0%Q (rho 2)) (scott (rho 0) (wopt w (rho 1)))])].
+Proof. exact refines_kde_pdf_h. Qed.
+Print Assumptions C20_refines_KDE_PDF.
+
+(* Sample.Sort in place (sample.go:345-356) = Model.Sample.sample_sort *)
+Theorem C20_refines_SampleSort : forall w sorted,
+  refines_inplace (sort_h w sorted) (wlen w) (fun _ => tt)
+    (if w then [(0, fun rho => Sample.s_xs (Sample.sample_sort (Sample.mkSample (rho 0) (Some (rho 1)) sorted)));
+                (1, fun rho => match Sample.s_ws (Sample.sample_sort (Sample.mkSample (rho 0) (Some (rho 1)) sorted)) with
+                               | Some ws => ws | None => [] end)]
+     else [(0, fun rho => Sample.s_xs (Sample.sample_sort (Sample.mkSample (rho 0) None sorted)))]).
+Proof. exact refines_sort_h. Qed.
+Print Assumptions C20_refines_SampleSort.
+
+(* graphalg.Reverse = Model.Order.reverse (C18) *)
+Theorem C20_refines_Reverse : refines_inplace reverse_h no_pre (fun _ => tt) [(0, fun rho => Order.reverse (rho 0))].
+Proof. exact refines_reverse_h. Qed.
+Print Assumptions C20_refines_Reverse.
+
+(* Linear.Nice / Log.Nice = Model.Ticks.lin_nice / log_nice (C17); the receiver is [Min; Max] *)
+Theorem C20_refines_LinearNice : forall base o guess,
+  refines_inplace (lin_nice_h base o guess) no_pre (fun _ => tt)
+    [(0, fun rho => match Ticks.lin_nice base (nth 0 (rho 0) 0%Q) (nth 1 (rho 0) 0%Q) o guess with
+                    | Ticks.NR_dom mn mx => [mn; mx] | Ticks.NR_panic => rho 0 end)].
+Proof. exact refines_lin_nice_h. Qed.
+Print Assumptions C20_refines_LinearNice.
+Theorem C20_refines_LogNice : forall base o,
+  refines_inplace (log_nice_h base o) no_pre (fun _ => tt)
+    [(0, fun rho => let r := Ticks.log_nice base (nth 0 (rho 0) 0%Q) (nth 1 (rho 0) 0%Q) o in [fst r; snd r])].
+Proof. exact refines_log_nice_h. Qed.
+Print Assumptions C20_refines_LogNice.
+
+(* Linear.SetClamp / Log.SetClamp = Model.Scale.sc_set_clamp (C16) *)
+Theorem C20_refines_SetClamp : forall c,
+  refines_inplace (set_clamp_h c) (fun rho => exists s, rho 0 = [s]) (fun _ => tt)
+    [(0, fun rho => map (fun s => Scale.sc_set_clamp s c) (rho 0))].
+Proof. exact refines_set_clamp_h. Qed.
+Print Assumptions C20_refines_SetClamp.
+
+(* StreamStats.Add / Combine = Model.Stream.s_add / s_combine (C13); Combine only reads o *)
+Theorem C20_refines_StreamAdd : forall x,
+  refines_inplace (add_h x) (fun rho => exists s, rho 0 = [s]) (fun _ => tt)
+    [(0, fun rho => map (fun s => Stream.s_add s x) (rho 0))].
+Proof. exact refines_add_h. Qed.
+Print Assumptions C20_refines_StreamAdd.
+Theorem C20_refines_StreamCombine :
+  refines_inplace combine_h (fun rho => exists s o, rho 0 = [s] /\ rho 1 = [o]) (fun _ => tt)
+    [(0, fun rho => [Stream.s_combine (cell Stream.s_init (rho 0)) (cell Stream.s_init (rho 1))])].
+Proof. exact refines_combine_h. Qed.
+Print Assumptions C20_refines_StreamCombine.
+
+(* NodeMarks.Mark / Unmark = Model.Marks.m_mark / m_unmark (C18) *)
+Theorem C20_refines_Mark : forall i, refines_inplace (mark_h i) no_pre (fun _ => tt) [(0, fun rho => Marks.m_mark (rho 0) i)].
+Proof. exact refines_mark_h. Qed.
+Print Assumptions C20_refines_Mark.
+Theorem C20_refines_Unmark : forall i, refines_inplace (unmark_h i) no_pre (fun _ => tt) [(0, fun rho => Marks.m_unmark (rho 0) i)].
+Proof. exact refines_unmark_h. Qed.
+Print Assumptions C20_refines_Unmark.
+
+(* Non-vacuity of the refinement statements: Quantile on a weighted unsorted sample with a tie,
+   run through a store where the sample's arrays sit between other data: result = the model's
+   value, the store's old part is intact, two fresh arrays were allocated; Sample.Sort on the
+   same store really sorts in place (weights follow their values). *)
+Example C20_refines_example :
+  let s0 : store Q := [[7]; [3; 1; 3; 2]; [10; 20; 30; 40]; [9]]%Q in
+  let e : env := [(0, 1); (1, 2)] in
+  wlen true (read s0 e) /\ env_ok e s0 /\
+  fst (v_run (quantile_h true false (1 # 2)) e s0) = Quantile.RVal 2 /\
+  firstn 4 (snd (v_run (quantile_h true false (1 # 2)) e s0)) = s0 /\
+  length (snd (v_run (quantile_h true false (1 # 2)) e s0)) = 6 /\
+  snd (v_run (sort_h true false) e s0) = [[7]; [1; 2; 3; 3]; [20; 40; 10; 30]; [9]]%Q.
+Proof.
+  repeat split; try (intros; vm_compute; reflexivity).
+  intros v l. destruct v as [|[|v]]; cbn; intros H; inversion H; auto.
+Qed.
+
 (* Non-vacuity: the Mann-Whitney routine really sorts (a copy), two threads really interleave. *)
 Example C20_example :
-  let s0 : store := [[3; 1; 2]%Z; [9; 8]%Z] in
+  let s0 : store Z := [[3; 1; 2]%Z; [9; 8]%Z] in
   let e : env := [(0, 0); (1, 1)] in
   let p := r_prog {| r_id := 1; r_nargs := 2; r_prog := copy_sort_use [0; 1] |} in
   readonly p = true /\ env_ok e s0 /\
